@@ -14,8 +14,10 @@ def rows(pattern):
         first = ""
         if fa:
             first = "first: " + ", ".join(f"{k}: {'caught' if val == 1 else 'quiet'}" for k, val in fa.items() if k != "note") + " — " + str(fa.get("note", ""))[:400]
+        if isinstance(m.get("first_attempt"), str):
+            first = m["first_attempt"][:500]
         out.append(f"| {name} | {summ} | {checks} | {first.replace('|','/')} |")
     return out
 which = sys.argv[1] if len(sys.argv) > 1 else "1"
 print("| id | change | checks now (quick tier) | history |\n|----|--------|------------------------|---------|")
-print("\n".join(rows("C??" if which == "1" else "C??-2")))
+print("\n".join(rows("C??" if which == "1" else "C??-" + which)))
